@@ -9,6 +9,7 @@ CONSTANTS
   Kinds = {"pa", "aw", "bd", "ba", "sc"}
   NatKinds = {"sd", "rd"}
   Prune = TRUE
+  Plan = "free"
 INVARIANTS TypeOK CoroMode RunToSuspension QueueFIFO ObservedOrder ResumeOncePerReadying NoReentrancy RoundRobin FullDrain AllDoneAtEnd
 PROPERTY FIFOStep
 CHECK_DEADLOCK FALSE
